@@ -113,7 +113,15 @@ func vC05(nActs int, acts []int, ways int) {
 	r := vNewRouter(&Config{RealmConfigs: []*RealmConfig{{URI: "realm1", AnonymousAuth: true, AllowDisclose: false, EnableMetaKill: true,
 		TopicEventHistoryConfigs: []*TopicEventHistoryConfig{{Topic: "hist.topic", MatchPolicy: wamp.MatchExact, Limit: 2}}}}})
 	base := vCountClientState(r.realms["realm1"]) // the configured history subscription stays for ever
-	a := vAttach(r, "realm1", nil, 64)
+	// a announces all client roles, or only the pub/sub ones (the router does
+	// not tie requests to announced roles, so it may still register and call)
+	var aHello wamp.Dict
+	pubsubOnly := vBool("a.announces.pubsub.roles.only")
+	aborted := false
+	if pubsubOnly {
+		aHello = wamp.Dict{"roles": wamp.Dict{"publisher": wamp.Dict{}, "subscriber": wamp.Dict{}}}
+	}
+	a := vAttach(r, "realm1", aHello, 64)
 	// callee b lacks progressive_call_invocations on purpose
 	bRoles := wamp.Dict{
 		"subscriber": wamp.Dict{},
@@ -132,6 +140,9 @@ func vC05(nActs int, acts []int, ways int) {
 	did := map[int]bool{}
 	var invAtB *wamp.Invocation
 	for k := 0; k < nActs; k++ {
+		if aborted {
+			break
+		}
 		act := acts[vChoice("act", len(acts))]
 		if did[act] {
 			continue
@@ -158,6 +169,14 @@ func vC05(nActs int, acts []int, ways int) {
 			a.send(&wamp.Call{Request: 15, Procedure: "b.proc", Options: wamp.Dict{"disclose_me": true}})
 		case actRefusedCall2:
 			a.send(&wamp.Call{Request: 16, Procedure: "b.proc", Options: wamp.Dict{"progress": true}})
+			if pubsubOnly {
+				// a did not announce progressive call invocations: protocol
+				// violation, the router aborts the session (a sixth way of ending)
+				_, nab := vFindMsg[*wamp.Abort](a.drain())
+				vAssert("protocol-violation-aborted", nab == 1)
+				aborted = true
+				vCover("aborted-for-protocol-violation")
+			}
 		case actTestament:
 			a.send(&wamp.Call{Request: 17, Procedure: wamp.MetaProcSessionAddTestament, Arguments: wamp.List{"will.topic", wamp.List{"bye"}, wamp.Dict{}}})
 		case actUnregisterWhileServing:
@@ -204,9 +223,15 @@ func vC05(nActs int, acts []int, ways int) {
 			vAssert("subscribed-to-history-topic", n == 1)
 			vCover("history-topic-subscriber")
 		}
-		a.drain()
+		if !aborted {
+			a.drain()
+		}
 	}
-	b.drain()
+	// what b saw so far; if a was aborted, this already includes everything a's end caused
+	bEarly := b.drain()
+	if !aborted {
+		bEarly = nil
+	}
 
 	// refused and failed calls leave nothing behind: the dealer tracks exactly
 	// the calls that are still waiting for an answer
@@ -217,10 +242,15 @@ func vC05(nActs int, acts []int, ways int) {
 	if did[actServePending] {
 		pendingCalls++
 	}
-	vAssert("only-pending-calls-are-tracked", len(rl.dealer.calls) == pendingCalls && len(rl.dealer.invocations) == pendingCalls && len(rl.dealer.invocationByCall) == pendingCalls)
+	if !aborted { // an aborted session has ended already: its calls are gone with it
+		vAssert("only-pending-calls-are-tracked", len(rl.dealer.calls) == pendingCalls && len(rl.dealer.invocations) == pendingCalls && len(rl.dealer.invocationByCall) == pendingCalls)
+	}
 
 	// --- the session ends ---
-	way := vChoice("way", ways)
+	way := -1
+	if !aborted {
+		way = vChoice("way", ways)
+	}
 	switch way {
 	case 0:
 		a.send(&wamp.Goodbye{Reason: wamp.CloseRealm, Details: wamp.Dict{}})
@@ -233,8 +263,10 @@ func vC05(nActs int, acts []int, ways int) {
 	case 4: // everybody but the caller is killed through the meta API
 		b.send(&wamp.Call{Request: 20, Procedure: wamp.MetaProcSessionKillAll})
 	}
-	a.drain()
-	bm := b.drain()
+	if !aborted {
+		a.drain()
+	}
+	bm := append(bEarly, b.drain()...)
 
 	vAssert("no-state-refers-to-ended-session", !vRefsTo(rl, a.id))
 	if did[actServePending] {
